@@ -195,3 +195,6 @@ fn i_canary_must_fail() {
     let v: f64 = kani::any();
     assert!(try_increment_sqlvalue(&SqlValue::Double(v)).is_some(), "canary");
 }
+
+// concrete-playback replay slot (see lib/kani_run.py: replay); empty except while a counterexample is being replayed
+include!("idx.playback.rs");
